@@ -174,7 +174,7 @@ HOSTILE_DESCRIPTIONS = ['quote " inside', 'ends with quote"', "ends with backsla
 
 
 VANISH = "value the serialiser maps to null"
-HOSTILE_ARGUMENT_NAMES = ["func", "self", "fn", "args", "kwargs", "cls", "key", "value", "node", "nodes", "default",
+HOSTILE_ARGUMENT_NAMES = ["func", "self", "fn", "func", "self", "fn", "func", "self", "args", "kwargs", "cls", "key", "value", "node", "nodes", "default",
                           "type", "name", "resolver", "executor", "runtime", "then", "else_", "path", "field"]
 
 
@@ -371,7 +371,7 @@ class SchemaGen(object):
             taken = set()
             for j in range(rng.randint(1, 3)):
                 aname = "%s_a%d" % (name, j)
-                if rng.random() < 0.12:
+                if rng.random() < 0.2:
                     # argument names are passed on as python keyword arguments: names that library
                     # internals use for their own parameters must not collide with anything
                     cand = rng.choice(HOSTILE_ARGUMENT_NAMES)
